@@ -29,7 +29,7 @@ TABLE = {
     ("mos_core::codegen::config_validator::ConfigValidator::extract", "sorted"):
         (1, "safe", "sorted() on String keys: a total order"),
     ("mos_core::codegen::symbols::SymbolTable::all_impl", "next"):
-        (1, "safe", "the result is collected into a HashMap keyed by the full path"),
+        (1, "safe", "the result is collected into a HashMap keyed by the full path — and R10.4 keeps the walk free of first-wins decisions"),
     ("mos_core::codegen::symbols::SymbolTable::remove_all", "next"):
         (1, "safe", "removes a set of nodes; which set does not depend on the order"),
     ("mos_core::io::vice::to_vice_symbols", "sorted"):
